@@ -394,6 +394,7 @@ LAT_CONFIGS = {
             ('line5-allworlds', q(V_TOPO='line', V_N=5, V_RAD2=5, V_LVS=1, V_BUILD=2, V_MAXCALLS=3, V_WORLDS='all', V_PROBLEMS='one')),
             ('ring6-api', q(V_TOPO='ring', V_N=6, V_RAD2=3, V_LVS=1, V_BUILD=1, V_MAXCALLS=5, V_WORLDS='few', V_PROBLEMS='one')),
             ('grid3x2', q(V_TOPO='grid', V_N=6, V_W=3, V_RAD2=5, V_LVS=1, V_BUILD=2, V_MAXCALLS=3, V_WORLDS='few', V_PROBLEMS='one')),
+            ('line5-api5', q(V_TOPO='line', V_N=5, V_RAD2=3, V_LVS=1, V_BUILD=2, V_MAXCALLS=5, V_WORLDS='free', V_PROBLEMS='one')),
             ('line5-api-goalregion', q(V_TOPO='line', V_N=5, V_RAD2=7, V_LVS=1, V_BUILD=3, V_MAXCALLS=3, V_WORLDS='free')),
             ('line6-integer-radius', q(V_TOPO='line', V_N=6, V_RAD2=4, V_LVS=1, V_BUILD=2, V_MAXCALLS=3, V_WORLDS='few', V_PROBLEMS='one')),
         ],
@@ -431,8 +432,10 @@ WITNESSES = {
 
 
 API_CONFIGS = {
-    'quick': [('api4-faults', q(V_MAXCALLS=4, V_MAXK=3))],
-    'thorough': [('api5-faults', q(V_MAXCALLS=5, V_MAXK=4))],
+    'quick': [('api4-faults', q(V_MAXCALLS=4, V_MAXK=3)),
+              ('api5-wellformed', q(V_MAXCALLS=5, V_FAULTS='none', V_VALIDALL=1))],
+    'thorough': [('api5-faults', q(V_MAXCALLS=5, V_MAXK=4)),
+                 ('api6-wellformed', q(V_MAXCALLS=6, V_FAULTS='none', V_VALIDALL=1))],
 }
 
 
@@ -474,10 +477,14 @@ def lattice_engine(planner, tier, seed, api=False):
                 hist_lines = open(hist).read().splitlines()
             for lab in v['labels']:
                 res['label_counts'][lab] = res['label_counts'].get(lab, 0) + 1
-                if sum(1 for x in res['violations'] if x['label'] == lab and x['cfg'] == name) < 5:
+                inp = json.loads(hist_lines[v['run'] - 1])
+                fk = (inp.get('fault') or {}).get('f', 'none')
+                # keep a few samples per (label, configuration, injected fault): known findings are
+                # matched per sample, so a different provoking input must not be crowded out
+                if sum(1 for x in res['violations'] if x['label'] == lab and x['cfg'] == name
+                       and ((x['input'].get('fault') or {}).get('f', 'none') == fk)) < 4:
                     res['violations'].append({'label': lab, 'planner': planner, 'engine': ename, 'cfg': name,
-                                              'run': v['run'], 'line': v['line'], 'mode': 'lattice',
-                                              'input': json.loads(hist_lines[v['run'] - 1])})
+                                              'run': v['run'], 'line': v['line'], 'mode': 'lattice', 'input': inp})
         if hist_lines is None:
             with open(hist) as f:
                 first = f.readline()
